@@ -287,6 +287,17 @@ func genLatticeSpec(t *rapid.T, depth int, allowCircle bool) objSpec {
 		s.Pts = []fpt{lp("p")}
 	case "LineString":
 		s.Pts = lps(0, 6, "l")
+		if rapid.IntRange(0, 19).Draw(t, "longline") == 0 {
+			// long enough for the default geometry index, with one position repeated many times
+			p := lp("rep")
+			for i := rapid.IntRange(64, 90).Draw(t, "longn"); i > 0; i-- {
+				if i%2 == 0 {
+					s.Pts = append(s.Pts, p)
+				} else {
+					s.Pts = append(s.Pts, lp("ll"))
+				}
+			}
+		}
 	case "Polygon":
 		if rapid.IntRange(0, 11).Draw(t, "nilpoly") == 0 {
 			s.NilPoly = true
@@ -381,6 +392,30 @@ func c05ScaleCheck(c c05Scale) fw.Outcome {
 				return fw.Failf("scaling", "Parse rejects a %d-point polygon: %v", c.N, err)
 			}
 		}
+	case "repeated-vertex": // many identical and duplicated positions: segments that no index can separate
+		pts := make([]geometry.Point, 0, c.N)
+		for i := 0; i < c.N; i++ {
+			switch {
+			case i%3 != 0:
+				pts = append(pts, geometry.Point{X: 7, Y: 7})
+			default:
+				pts = append(pts, geometry.Point{X: float64(i % 13), Y: float64(i % 11)})
+			}
+		}
+		for _, opts := range []*geometry.IndexOptions{nil, {Kind: geometry.QuadTree, MinPoints: 1}, {Kind: geometry.RTree, MinPoints: 1}} {
+			step("build")
+			l := geojson.NewLineString(geometry.NewLine(pts, opts))
+			p := geojson.NewPolygon(geometry.NewPoly(append(append([]geometry.Point{}, pts...), pts[0]), nil, opts))
+			step("predicates")
+			_ = l.Intersects(p)
+			_ = p.Contains(l)
+			_ = l.Contains(l)
+			_ = p.Intersects(geojson.NewPoint(geometry.Point{X: 7, Y: 7}))
+			step("JSON/Parse")
+			if _, err := geojson.Parse(l.JSON(), nil); err != nil {
+				return fw.Failf("scaling", "Parse rejects a %d-point line with repeated positions: %v", c.N, err)
+			}
+		}
 	case "collinear-line-pairs": // many collinear pieces: the ContainsLine walk
 		pts := make([]geometry.Point, c.N)
 		for i := range pts {
@@ -449,6 +484,11 @@ func c05ScaleEnum(tier string, yield func(c05Scale) bool) {
 	if tier == "thorough" {
 		kmax = 4
 	}
+	for _, n := range []int{40, 70, 130, 300} {
+		if !yield(c05Scale{Shape: "repeated-vertex", N: n}) {
+			return
+		}
+	}
 	for _, shape := range []string{"star-ring-pairs", "collinear-line-pairs"} {
 		for k := 0; k <= kmax; k++ {
 			if !yield(c05Scale{Shape: shape, N: 500 << k}) {
@@ -493,6 +533,7 @@ func c05Subs() []fw.Sub {
 func TestC05(t *testing.T) {
 	fw.Main(t, "C05", c05Subs(), func(r *fw.Rec) {
 		r.HangIsViolation = true
+		r.PersistSlot = true
 		c05Rec = r
 	})
 }
